@@ -591,6 +591,7 @@ func (s *Server) FastInvoke(w http.ResponseWriter, i *interop.Invoke, direct boo
 				State: s.InternalStateGetter(),
 			}
 		} else {
+			verifhook.Point("fastInvoke.successSeen")
 			done := doneFromInvokeSuccess(invokeSuccess)
 			s.InvokeDoneChan <- DoneWithState{Done: done, State: s.InternalStateGetter()}
 		}
